@@ -232,6 +232,9 @@ def gen_components(rng):
             "init": [[u, str(p)] for u, p in zip(starts, ps)], "gamma": rng.choice(["9/10", "19/20"])}
 
 
+# 1 - 2^-10, 1 - 2^-14, 1 - 2^-17, 1 - 10^-6 (exact rationals to the model, nearest doubles to msdm)
+NEAR_ONE = ["1023/1024", "16383/16384", "131071/131072", "999999/1000000"]
+
 def gen_case(rng, tier):
     nmax = 6 if tier == "quick" else 8
     r = rng.random()
@@ -241,16 +244,21 @@ def gen_case(rng, tier):
     elif r < .34:
         kind = "discounted-components"        # many disconnected components / paying self-loops, 5-8 states
         m = gen_components(rng)
-    elif r < .44:
+    elif r < .42:
+        # continuing problems (no terminal states) with a discount rate very close to 1: |V*| ~ 1/(1-gamma)
+        kind = "discounted-near-one"
+        m = gen_mdp.gen_mdp(rng, nmax=4, amax=2, min_states=2, goal=False, implicit_absorbing=False,
+                            gamma=rng.choice(NEAR_ONE))
+    elif r < .50:
         kind = "undisc-proper-nonpos"        # every policy reaches a terminal state
         m = gen_mdp.gen_mdp(rng, nmax=nmax, amax=3, gamma="1", proper=True)
-    elif r < .58:
+    elif r < .62:
         kind = "undisc-terminal-either-sign"  # terminal states exist but need not be reached
         m = _either_sign(rng, nmax=nmax, amax=3, min_states=2)
-    elif r < .72:
+    elif r < .74:
         kind = "undisc-recurrent"             # no explicit terminal states: unichain or multichain by chance
         m = _either_sign(rng, nmax=nmax, amax=3, min_states=2, goal=False)
-    elif r < .85:
+    elif r < .86:
         kind = "undisc-blocks"                # multichain by construction
         m = gen_blocks(rng, nmax)
     else:
@@ -409,7 +417,14 @@ def prepare(case, res):
     mt = " ".join([nat(n), nat(nA), qten(P), qten(R), bmat(av), blist(absf), qlist(ini), q(gam)])
     ot = " ".join([qlist(g), qlist(h), qmat(pi), q(ig), q(iv)])
     if gam < 1:
-        tol = [2 * band, F(1001, 10**13) + tiny, 10 * tiny, F(1, 10**12), tiny]
+        # residual tolerance: the improvement test's band, but never so wide that the value bound
+        # d_eps/(1-gamma) of C16_discounted_values exceeds 1e-3 of the value scale (bites only for
+        # gamma > 0.98: for the usual discount rates this is the band itself)
+        d_eps = min(2 * band, F(1, 1000) * (1 - gam) * scale)
+        # reported gain (0 in a discounted problem; not part of the property): solver noise eps_g in the gain
+        # shows up as eps_g/(1-gamma) in the values, so near gamma = 1 it is judged at the residual tolerance
+        d_gz = 10 * tiny if d_eps == 2 * band else max(10 * tiny, d_eps)
+        tol = [d_eps, F(1001, 10**13) + tiny, d_gz, F(1, 10**12), tiny]
         d["tols"] = tol
         d["term"] = "chkd %s %s %s" % (mt, ot, " ".join(q(x) for x in tol))
         return d
@@ -456,12 +471,19 @@ def search_failing(case, res, d):
         Vs = _c01.exact_vstar(d["P"], d["R"], av, d["absorbing"], gam)
         if Vs is None:
             return None
-        bound = (2 * d["band"]) / (1 - gam) + slack
+        vscale = max([F(1)] + [abs(x) for x in Vs])
+        bound = d["tols"][0] / (1 - gam) + F(1, 10**6) * vscale
         for s in range(n):
             if abs(h[s] - Vs[s]) > bound:
                 why = {"clause": "state value differs from the exact optimal discounted value",
-                       "state_index": s, "reported": str(float(h[s])), "optimal": str(Vs[s])}
-                if max(abs(x) for x in g) > F(1, 10**6) * d["scale"]:
+                       "state_index": s, "reported": str(float(h[s])), "optimal": str(float(Vs[s])),
+                       "relative_error": str(float(abs(h[s] - Vs[s]) / vscale)), "one_minus_gamma": str(1 - gam)}
+                if 1 - gam < F(1, 1000):
+                    # discount rate very close to 1: the evaluation step solves the Gram (normal-equations)
+                    # system, whose condition number is the square of the stacked system's ~ 1/(1-gamma)^2
+                    why["signature"] = "C16:discounted:gamma-near-one:values-not-optimal"
+                    why["reported_gain"] = [str(float(x)) for x in g]
+                elif max(abs(x) for x in g) > F(1, 10**6) * d["scale"]:
                     # a discounted evaluation system forces gain 0: a clearly non-zero reported gain means
                     # equations (gamma*P - I) g = 0 were dropped by independent_row_indices (np.isclose(det, 0)
                     # is scale dependent: the Gram determinant of several small rows falls below 1e-8)
@@ -624,7 +646,8 @@ def run(ctx):
                 "rewards of either sign, no terminal states (recurrent, unichain/multichain by chance), and block-structured multichain "
                 "(2-3 closed classes + transient states + optional terminal state), gain-class-choice 'farms' (closed classes of different gain entered for "
                 "equal / nearly equal / unrelated one-off rewards: exact bias ties across classes of different gain); discounted 'components' "
-                "(5-8 states in many disconnected components, paying self-loops, gamma in {9/10,19/20}); MultichainPolicyIteration(max_iterations in {200,500,1000}); "
+                "(5-8 states in many disconnected components, paying self-loops, gamma in {9/10,19/20}) and 'near-one' (2-4 state continuing MDPs, "
+                "gamma in {1-2^-10, 1-2^-14, 1-2^-17, 1-10^-6}, residual tolerance capped so that the value bound is <= 1e-3 of the value scale); MultichainPolicyIteration(max_iterations in {200,500,1000}); "
                 "only converged=True runs are judged; distinct = structural hash of the MDP; non-trivial = at least one non-terminal state" % nmax,
         "samples": [{"case": cases[meta[0]], "impl": impl[meta[0]]}] if meta else [],
         "cases": len(cases), "certificate_checks": nchk, **stats,
